@@ -74,8 +74,24 @@ DESC = {
  'C19-f': 'toChar returns string([]byte{byte(s)}) for code points 0..255',
  'C20-f': "switch compares subject and case with Go == when both have the same static type; two interface-typed operands always look same-typed, so vm.equal's cross-type equalities are lost",
  'C07-f': 'variadic tail of a non-spread call: all remaining operands are evaluated first, conversion to the element type happens in a second loop',
+ 'C12-g': 'DeepCopy leaves empty enclosing scopes (no values, no types, not the root) out of the copied chain - also when such a scope carries an external lookup',
+ 'C14-g': 'defer name(args) resolves the function into the PARSED call node (callExpr = t; t.Func = looked-up value) instead of a fresh node',
+ 'C06-g': "mixed-width floats are compared after converting the right operand to the left operand's type (instead of one rendering of each)",
+ 'C17-g': 'walker helper walkOperands stops at the first nil operand: a slice expression without begin bound loses its end and cap subtrees',
+ 'C09-g': 'each function value keeps one deferred-call buffer reused by all its invocations (runInfo.defers starts as deferBuf[:0])',
+ 'C16-g': 'buffered-channel send fast path: if Len() < Cap() the value is sent with TrySend whose result is ignored',
+ 'C15-g': 'the actions of TRUE / FALSE / NIL assign one shared package-level literal node (and SetPosition on it) instead of building a fresh node',
+ 'C01-g': "isHashable decided by the dynamic TYPE's comparability (v.Type().Comparable()) after unwrapping: a struct with an interface field holding a slice passes the guard",
 }
 NEEDS = {
+ 'C12-g': 'a chain of three or more scopes whose empty middle scope has SetExternalLookup set; DeepCopy; a name only that lookup serves is resolved through the copy',
+ 'C14-g': 'the same parsed tree run again (another environment) or the defer statement executed again with the name rebound: the stale function is called',
+ 'C06-g': 'a float32 supplied by Go compared with a float64 / numeral string on the LEFT: == is no longer symmetric (1.1)',
+ 'C17-g': 'a[:e] or a[:e:c] anywhere in the tree',
+ 'C09-g': 'nested invocations of the same function value (recursion, re-entry) that each defer something, after a first completed call warmed the buffer',
+ 'C16-g': 'two goroutines sending concurrently on a buffered channel: the loser of the race for the free slot loses its value',
+ 'C15-g': 'a keyword literal occurring twice (in one text or in two ParseSrc calls): positions of earlier trees change, nodes are shared',
+ 'C01-g': "a make(struct{A interface}) value whose member holds a slice/map used as a map key: runtime panic 'hash of unhashable type' escapes",
  'C13-f': "Set(x) racing Delete(x) on the same scope: the Delete runs between SetValue's RUnlock and Lock and the binding is resurrected",
  'C18-f': "a script mixing println with fmt.Println of the imported fmt package: the command's stdout is reordered",
  'C03-f': 'an unsigned hexadecimal or binary literal equal to exactly 2^63 (0x8000000000000000) parses as MinInt64 instead of being rejected',
@@ -109,6 +125,7 @@ NEEDS = {
 }
 EXTRA_PROPS = {'C09-c': ['C14']}   # seeds whose change is (also) a violation of another claimed property
 FIRST = {  # verdict of the check as it was when the seed was first evaluated
+ 'C06-g': 'missed', 'C09-g': 'missed', 'C15-g': 'missed',
  'C11-f': 'missed', 'C19-f': 'missed', 'C07-f': 'missed', 'C20-f': 'missed by the C20 check, caught by the C08 and C06 checks (runSwitchStmt matching clauses, now also tagged C20)',
  'C03-e': 'missed', 'C07-e': 'missed', 'C10-e': 'missed', 'C11-e': 'missed', 'C19-e': 'missed', 'C20-e': 'missed', 'C02-e': 'missed', 'C14-e': 'missed',
  'C08-a': 'missed', 'C08-b': 'missed', 'C04-b': 'missed', 'C19-b': 'missed', 'C01-b': 'missed',
